@@ -442,6 +442,129 @@ Proof.
   - discriminate.
 Qed.
 
+(* update(): applying the collapsed dict `up` equals applying the pairs one by one *)
+Definition keys (d : pydict) : list Z := map fst d.
+
+Lemma d_get_None_notin : forall k d, d_get k d = None <-> ~ In k (keys d).
+Proof.
+  induction d as [|[k' v'] r IH]; simpl; [tauto|].
+  destruct (Z.eqb_spec k k'); split; intro H; try discriminate.
+  - exfalso; apply H; auto.
+  - intros [E|E]; [congruence|]. apply IH in H; auto.
+  - apply IH. intro; apply H; auto.
+Qed.
+
+Lemma keys_d_set : forall k v d x, In x (keys (d_set k v d)) <-> x = k \/ In x (keys d).
+Proof.
+  induction d as [|[k' v'] r IH]; simpl; intros x.
+  - split; [intros [H|[]]; auto|intros [H|[]]; auto].
+  - destruct (Z.eqb_spec k k'); simpl.
+    + subst. split; [intros [H|H]; auto|intros [H|[H|H]]; auto].
+    + rewrite IH. split; [intros [H|[H|H]]; auto|intros [H|[H|H]]; auto].
+Qed.
+
+Lemma NoDup_keys_d_set : forall k v d, NoDup (keys d) -> NoDup (keys (d_set k v d)).
+Proof.
+  induction d as [|[k' v'] r IH]; simpl; intros H.
+  - repeat constructor; auto.
+  - inversion H; subst. destruct (Z.eqb_spec k k'); simpl.
+    + subst. constructor; auto.
+    + constructor; auto. intro Hin. apply keys_d_set in Hin. destruct Hin; [congruence|auto].
+Qed.
+
+(* replacing the value of a key that is present commutes with any other assignment *)
+Lemma d_set_comm_present : forall k v k1 v1 d, k <> k1 -> In k (keys d) ->
+  d_set k v (d_set k1 v1 d) = d_set k1 v1 (d_set k v d).
+Proof.
+  induction d as [|[k' v'] r IH]; simpl; intros N H; [contradiction|].
+  destruct (Z.eqb_spec k1 k'); destruct (Z.eqb_spec k k'); subst; simpl.
+  - congruence.
+  - destruct (Z.eqb_spec k k'); [congruence|]. rewrite Z.eqb_refl. reflexivity.
+  - rewrite Z.eqb_refl. destruct (Z.eqb_spec k1 k'); [congruence|]. reflexivity.
+  - destruct (Z.eqb_spec k k'); [congruence|]. destruct (Z.eqb_spec k1 k'); [congruence|].
+    f_equal. apply IH; auto. destruct H; [simpl in *; congruence|auto].
+Qed.
+
+Lemma d_set_idem : forall k v v' d, d_set k v (d_set k v' d) = d_set k v d.
+Proof.
+  induction d as [|[k' w] r IH]; simpl.
+  - rewrite Z.eqb_refl. reflexivity.
+  - destruct (Z.eqb_spec k k'); simpl.
+    + rewrite Z.eqb_refl. reflexivity.
+    + destruct (Z.eqb_spec k k'); [congruence|]. f_equal; auto.
+Qed.
+
+Lemma d_update_cons : forall d kv r, d_update d (kv :: r) = d_update (d_set (fst kv) (snd kv) d) r.
+Proof. reflexivity. Qed.
+
+Lemma set_update_comm : forall r k v d, ~ In k (keys r) -> In k (keys d) ->
+  d_set k v (d_update d r) = d_update (d_set k v d) r.
+Proof.
+  induction r as [|[k1 v1] r IH]; intros k v d N H; auto.
+  rewrite !d_update_cons. simpl fst; simpl snd.
+  rewrite IH.
+  - f_equal. apply d_set_comm_present; auto. intro; subst; apply N; left; auto.
+  - intro; apply N; right; auto.
+  - apply keys_d_set; auto.
+Qed.
+
+Lemma update_set_unique : forall m k v d, NoDup (keys m) ->
+  d_update d (d_set k v m) = d_set k v (d_update d m).
+Proof.
+  induction m as [|[k' v'] r IH]; intros k v d ND; auto.
+  inversion ND; subst. simpl d_set.
+  destruct (Z.eqb_spec k k').
+  - subst. rewrite !d_update_cons. simpl fst; simpl snd.
+    rewrite set_update_comm; auto.
+    + rewrite d_set_idem. reflexivity.
+    + apply keys_d_set; auto.
+  - rewrite !d_update_cons. simpl fst; simpl snd. apply IH; auto.
+Qed.
+
+Lemma update_update : forall ps m d, NoDup (keys m) ->
+  d_update d (d_update m ps) = d_update (d_update d m) ps.
+Proof.
+  induction ps as [|[k v] r IH]; intros m d ND; auto.
+  rewrite !d_update_cons. simpl fst; simpl snd.
+  rewrite IH by (apply NoDup_keys_d_set; auto).
+  rewrite update_set_unique; auto.
+Qed.
+
+Lemma NoDup_keys_update : forall ps m, NoDup (keys m) -> NoDup (keys (d_update m ps)).
+Proof.
+  induction ps as [|[k v] r IH]; intros m ND; auto.
+  rewrite d_update_cons. apply IH. apply NoDup_keys_d_set; auto.
+Qed.
+
+Lemma pd_update_view : forall up s, wf s ->
+  wf (fold_left (fun acc kv => pd_setitem acc (fst kv) (snd kv)) up s) /\
+  to_dict (fold_left (fun acc kv => pd_setitem acc (fst kv) (snd kv)) up s) = d_update (to_dict s) up.
+Proof.
+  induction up as [|[k v] r IH]; intros s W; simpl; auto.
+  destruct (pd_setitem_view s k v W) as [W1 E1]. destruct (IH _ W1) as [W2 E2].
+  split; auto. rewrite E2, E1. reflexivity.
+Qed.
+
+Theorem proxy_dict_update_view : forall s u kw, wf s ->
+  wf (snd (pd_step s (DUpdate u kw))) /\
+  (fst (pd_step s (DUpdate u kw)), to_dict (snd (pd_step s (DUpdate u kw)))) = pdop_ref (to_dict s) (DUpdate u kw).
+Proof.
+  intros s u kw W. unfold pdop_ref. cbn [pd_step py_dict_op fst snd].
+  destruct (pd_update_view (d_update (d_update [] (upd_pairs u)) kw) s W) as [W1 E].
+  split; auto. rewrite E. f_equal.
+  rewrite update_update by (apply NoDup_keys_update; constructor).
+  rewrite update_update by constructor. reflexivity.
+Qed.
+
+Theorem proxy_dict_is_view : forall s o, wf s -> pd_guard s o = true ->
+  wf (snd (pd_step s o)) /\
+  (fst (pd_step s o), to_dict (snd (pd_step s o))) = pdop_ref (to_dict s) o.
+Proof.
+  intros s o W G. destruct o as [k v|k| |k dflt| |k v|u kw|m] eqn:E;
+    try (apply proxy_dict_is_view_partial; auto; exact I).
+  apply proxy_dict_update_view; auto.
+Qed.
+
 (* ------------------------------------------------------------------ set proxy *)
 (* the proxied values are distinct; single-element operations and the unions / differences built
    from them *)
